@@ -1,0 +1,27 @@
+//go:build verif
+
+// Contracts for the deductive verifier in /verif (govc). Comment-only: this
+// file adds no code to the package. Syntax: /verif/DESIGN.md §2.3.
+
+package mqtttest
+
+// The publish mock reports exactly the deviations: a surplus call, or a call
+// whose message or topic differs from the expectation.
+//@ func mqtttest.NewPublishMock$2 -> r
+//@ requires *t != nil
+//@ ensures[C20] quit != nil && (closed(quit) || len(quit) > 0) ==> reports(*t) == old(reports(*t)) && *wantIndex == old(*wantIndex)
+//@ ensures[C20] quit != nil && (closed(quit) || len(quit) > 0) ==> r == mqtt.ErrCanceled
+//@ ensures[C20] (quit == nil || (!closed(quit) && len(quit) == 0)) ==> *wantIndex == (old(*wantIndex) + 1) % 18446744073709551616
+//@ ensures[C20,id=report_iff_deviation] (quit == nil || (!closed(quit) && len(quit) == 0)) && old(*wantIndex) < len(*want) ==> (reports(*t) > old(reports(*t))) == !(bytes_eq(message, (*want)[old(*wantIndex)].Message) && topic == (*want)[old(*wantIndex)].Topic)
+//@ ensures[C20] (quit == nil || (!closed(quit) && len(quit) == 0)) && old(*wantIndex) >= len(*want) ==> reports(*t) == old(reports(*t)) + 1 && r == nil
+//@ ensures[C20] (quit == nil || (!closed(quit) && len(quit) == 0)) && old(*wantIndex) < len(*want) ==> r == (*want)[old(*wantIndex)].Err
+//@ ensures[C20] reports(*t) <= old(reports(*t)) + 1
+
+// The stub returns private copies.
+//@ func mqtttest.NewReadSlicesStub$1 -> message, topic, err
+//@ ensures[C20] fresh(message) && fresh(topic) && ref(message) != ref(topic)
+//@ ensures[C20] bytes_eq(message, fix.Message) && bytes_eq(topic, fix.Topic) && err == fix.Err
+
+//@ func mqtttest.NewPublishStub$1 -> r
+//@ ensures[C20] quit != nil && (closed(quit) || len(quit) > 0) ==> r == mqtt.ErrCanceled
+//@ ensures[C20] (quit == nil || (!closed(quit) && len(quit) == 0)) ==> r == *fix
